@@ -2222,8 +2222,31 @@ class SX:
         # evaluate arguments
         argnodes = list(n.args)
         kwnodes = [(k.arg, k.value) for k in n.keywords]
-        if any(isinstance(a, ast.Starred) for a in argnodes) or any(k is None for k, _ in kwnodes):
+        if any(isinstance(a, ast.Starred) for a in argnodes):
             return [(st, Unk(ast.unparse(n)[:80]))]
+        if any(k is None for k, _ in kwnodes):
+            # f(**d): expanded when d is a dict literal value with constant keys (each path of its evaluation)
+            stars = [v for k, v in kwnodes if k is None]
+            if len(stars) != 1:
+                return [(st, Unk(ast.unparse(n)[:80]))]
+            out = []
+            for r in self.eval_x(stars[0], st, frame):
+                if isinstance(r, Outcome):
+                    out.append(r)
+                    continue
+                s1, dv = r
+                if not isinstance(dv, Dv):
+                    out.append((s1, Unk(ast.unparse(n)[:80])))
+                    continue
+                s2 = s1.copy()
+                extra = []
+                for i, (key, val) in enumerate(dv.items.items()):
+                    tmp = f'<kw{id(n)}:{i}>'
+                    s2.env[tmp] = val
+                    extra.append(ast.keyword(arg=key, value=ast.copy_location(ast.Name(id=tmp, ctx=ast.Load()), n)))
+                n2 = ast.copy_location(ast.Call(func=n.func, args=list(n.args), keywords=[k for k in n.keywords if k.arg is not None] + extra), n)
+                out.extend(self.call(n2, s2, frame))
+            return out
         res = []
         # callee
         if not isinstance(f, (ast.Attribute, ast.Name)):
@@ -2407,8 +2430,31 @@ class SX:
             return Rat.atom('bool01[' + v.guard.show(self.ctx) + ']')
         raise CannotDecide(f'numeric argument expected, got {v!r}')
 
+    def operator_imports(self, module):
+        """{local name -> operator function} for `from operator import add, sub as minus ...` of a module"""
+        key = ('opimp', module)
+        if key not in self._field_types:
+            out = {}
+            tree = self.model.trees.get(module)
+            for nd in (ast.walk(tree) if tree is not None else ()):
+                if isinstance(nd, ast.ImportFrom) and nd.module == 'operator':
+                    for a in nd.names:
+                        out[a.asname or a.name] = a.name
+            self._field_types[key] = out
+        return self._field_types[key]
+
     def apply_name(self, n, name, args, kwargs, st, frame) -> list:
         m = self.model
+        if isinstance(st.env.get(name), Fv) and not st.env[name].name.startswith('bound:'):
+            name = st.env[name].name          # a local bound to a function: call the function
+        opf = self.operator_imports(frame['module']).get(name)
+        if opf in ('add', 'sub', 'mul', 'truediv') and len(args) == 2 and not kwargs:
+            op = {'add': ast.Add(), 'sub': ast.Sub(), 'mul': ast.Mult(), 'truediv': ast.Div()}[opf]
+            v = self.binop(op, args[0], args[1], st, n)
+            return [v if isinstance(v, Outcome) else (st, v)]
+        if opf == 'neg' and len(args) == 1 and isinstance(args[0], (N, Dyn, Q)):
+            a = args[0]
+            return [(st, Q(a.kind, -a.term, a.unit) if isinstance(a, Q) else type(a)(-a.term))]
         if name == 'getattr' and len(args) in (2, 3) and isinstance(args[1], Sv) and isinstance(args[0], (Ov, Q)):
             return self.load_attr(args[0], args[1].s, st, frame, n)
         if name == 'setattr' and len(args) == 3 and isinstance(args[1], Sv) and isinstance(args[0], Ov):
